@@ -207,6 +207,11 @@ def analyse(unit, g, vr):
                 lab = o.get('contract')
                 rec['fn'] = lab
                 sn = 'proof-hint:' + o.get('id', '')
+                if kind == 'requires-at-call':
+                    # the precondition of a lemma called inside a proof block: part of the proof of the function's
+                    # functional clauses, not a safety obligation of the code
+                    kind = 'assert'
+                    rec['kind'] = 'assert'
                 if kind == 'assert':
                     kind = 'assert-hint'
                     # an assertion of a proof block may carry a property tag like a clause does: `// [C04] #name`
